@@ -52,7 +52,7 @@ check('C04', 'model_checking',
       'Momentum read from xd_i (COM velocities); tolerance is the round-off scale of the sum. Rest failures of mixed hinge/slide stacks other than S..SH in spring/positional are a listed known finding.',
       'exhaustive expansion of the control-word tree on the real step function, invariant checked at every state', 'DESIGN.md 4/C04')
 check('C03', 'exploration',
-      'Models with orthogonal stacked axes x three pipelines x n in {1,2} (5 in thorough) steps: jax.grad of a fixed weighted sum of link positions/velocities and joint state w.r.t. (q, qd, ctrl) must be finite on the singular set (qd=0, q=0, each coordinate at 0, axis-aligned root rotations, coincident anchors, ctrl on a bound) and equal the central difference on seeded regular points, incl. a point where every joint limit is active during the whole rollout.',
+      'Models with orthogonal stacked axes x three pipelines x n in {1,2} (5 in thorough) steps: jax.grad of a fixed weighted sum of link positions/velocities and joint state w.r.t. (q, qd, ctrl) must be finite on the singular set (qd=0, q=0, each coordinate at 0, axis-aligned root rotations, coincident anchors, ctrl on a bound, exact rest in zero gravity), in two programs (system as jit argument / closed over as a constant, which XLA simplifies differently), and equal the central difference on seeded regular points, incl. a point where every joint limit is active during the whole rollout.',
       'Finite differences are a numerical oracle with band 1e-4(1+|g|); a coordinate is compared only where central differences at h=1e-5,1e-6,1e-7 agree (smooth at the stencil scale; counts in the evidence); mixed hinge/slide stacks are exercised on the generalized pipeline only.',
       'bounded enumeration of models x singular/regular input sets, finite-difference oracle', 'DESIGN.md 4/C03')
 check('C05', 'exploration',
@@ -64,7 +64,7 @@ check('C06', 'model_checking',
       'Thresholds: 5 cm / 5 mm resting, rebound margins from the property. Push-only is judged on the contact contribution relative to free fall. Positional velocity over-correction of tilted non-spherical bodies, limits on non-orthogonal stacks (spring/positional) and on left-handed three-hinge stacks (positional) are listed known findings.',
       'exhaustive enumeration of scene lattices with per-step invariants on real pipeline histories; differential oracle for inertness', 'DESIGN.md 4/C06')
 check('C07', 'exploration',
-      'vmap vs solo for 8 models x 3 pipelines x batch sizes 2,3,8 with ALL ordered pairs of an 8-state alphabet (bitwise independence of a member from its neighbour inside one executable); jit vs eager; all 64 termination schedules as members of the wrapped scripted env in three member orders vs solo; DomainRandomizationVmapWrapper members vs solo envs built from the member system.',
+      'vmap vs solo for 8 models x 3 pipelines x batch sizes 2,3,8 with ALL ordered pairs of an 8-state alphabet (bitwise independence of a member from its neighbour inside one executable); jit vs eager; all 64 termination schedules as members of the wrapped scripted env in three member orders vs solo; DomainRandomizationVmapWrapper members (mass x friction x gear x timestep scalings, 4 bundled envs) vs solo envs built from the member system by re-running the PipelineEnv constructor, compared on obs/reward/done and every pipeline-state leaf from reset on.',
       'Batched vs solo executables may re-associate sums (1e-7); independence inside one executable is bitwise.',
       'bounded exhaustive enumeration of batch compositions, differential oracle (batched vs solo)', 'DESIGN.md 4/C07')
 check('C08', 'exploration',
